@@ -178,7 +178,26 @@ func VerifHarness_C12_partition_symbolic() {
 
 // Cauchy x- and y-sets are disjoint and individually distinct after the
 // conversion to 16 bits whenever data+parity <= 65535, so Inverse never sees 0.
+var (
+	cauchyFn         func(int, int) gf2p16.T
+	cauchyR, cauchyC int
+)
+
+func stubMatrixFromFunction(rows, columns int, fn func(int, int) gf2p16.T) gf2p16.Matrix {
+	cauchyFn, cauchyR, cauchyC = fn, rows, columns
+	return gf2p16.NewMatrixFromSlice(1, 1, []gf2p16.T{1})
+}
+
+// with Inverse the identity, an entry of the Cauchy matrix is x_i + y_j itself
+func stubInverseNonZero(t gf2p16.T) gf2p16.T {
+	rt.Assert(t != 0, "x_i + y_j != 0")
+	return t
+}
+
 func VerifHarness_C07_cauchy_xy() {
+	rt.Option("minimize-words")
+	rt.Replace("github.com/akalin/gopar/gf2p16.NewMatrixFromFunction", stubMatrixFromFunction)
+	rt.Replace("(github.com/akalin/gopar/gf2p16.T).Inverse", stubInverseNonZero)
 	d, p := rt.Int("d"), rt.Int("p")
 	rt.Assume(d > 0)
 	rt.Assume(p > 0)
@@ -195,14 +214,27 @@ func VerifHarness_C07_cauchy_xy() {
 	rt.Assume(j < d)
 	rt.Assume(j2 >= 0)
 	rt.Assume(j2 < d)
-	x, x2 := gf2p16.T(d+i), gf2p16.T(d+i2)
-	y, y2 := gf2p16.T(j), gf2p16.T(j2)
-	rt.Assert(x.Plus(y) != 0, "x_i + y_j != 0")
+	if !rt.IsSymbolic() {
+		// native replay: the real matrix (bounded size); Inverse is injective and panics on 0
+		rt.Assume(d*p <= 1<<22)
+		m := newCauchyParityMatrix(d, p)
+		if i != i2 {
+			rt.Assert(m.At(i, j) != m.At(i2, j), "x values distinct")
+		}
+		if j != j2 {
+			rt.Assert(m.At(i, j) != m.At(i, j2), "y values distinct")
+		}
+		return
+	}
+	// the real construction, with the element function captured instead of evaluated d*p times
+	newCauchyParityMatrix(d, p)
+	rt.Assert(cauchyR == p && cauchyC == d, "parity matrix has one row per parity shard and one column per data shard")
+	a, b, c := cauchyFn(i, j), cauchyFn(i2, j), cauchyFn(i, j2)
 	if i != i2 {
-		rt.Assert(x != x2, "x values distinct")
+		rt.Assert(a != b, "x values distinct")
 	}
 	if j != j2 {
-		rt.Assert(y != y2, "y values distinct")
+		rt.Assert(a != c, "y values distinct")
 	}
 }
 
@@ -398,6 +430,7 @@ func VerifHarness_C07_cauchy() {
 func VerifHarness_C07_vandermonde() {
 	coderCase(false, 3, 2, 2*(1+rt.Choice("words", 2)), 1+rt.Choice("g", 2))
 }
+
 // three parity shards with two data shards: every pattern with a gap between
 // the used parity rows
 func VerifHarness_C07_cauchy_gap()      { coderCase(true, 2, 3, 2, 1) }
